@@ -157,10 +157,6 @@ impl SimRng {
         self.events.len()
     }
 
-    pub fn unserved_plan(&self) -> usize {
-        self.plan.len()
-    }
-
     fn serve(&mut self, method: Method, dest: &mut [u8]) -> Result<(), ()> {
         if let Some(s) = &mut self.sweep {
             s.requests += 1;
